@@ -445,10 +445,20 @@ def enc_arg(x):
     return enc(x)
 
 
+SAME_TWICE = {"allclose": (0, 1), "is_supergraph": (0, 1), "is_consistent_extension": (0, 1),
+              "has_subgraph": (0, 1), "has_supergraph": (0, 1), "same_normal": (0, 1)}
+
+
 def gen_utils_call(g, pmax, name=None):
     name = name or g.choice(NAMES)
     args, kw = TEMPLATES[name](g, max(1, pmax))
+    same = None
+    if name in SAME_TWICE and g.random() < 0.15:
+        same = list(SAME_TWICE[name])             # one caller object passed for two parameters
     if g.random() < 0.12:
         # list-like arguments handed over as tuples
         args = [tuple(a) if isinstance(a, list) else a for a in args]
-    return {"op": "u.call", "fn": name, "args": [enc_arg(a) for a in args], "kw": {k: enc(v) for k, v in kw.items()}}
+    rec = {"op": "u.call", "fn": name, "args": [enc_arg(a) for a in args], "kw": {k: enc(v) for k, v in kw.items()}}
+    if same:
+        rec["same_object"] = same
+    return rec
